@@ -52,27 +52,19 @@ def parseChunk (s : String) : Option Chunk :=
 
 /-- one handler statement; the token it prints -/
 def runOp (q : Req) (op : String) : Option (Except Err String × Req) :=
+  let tok (pre : String) (r : Except Err Bytes × Req) (suffix : Req → String) : Except Err String × Req :=
+    match r with
+    | (.error e, q') => (.error e, q')
+    | (.ok d, q') => (.ok s!"{pre}:{hexBytes d}{suffix q'}", q')
   if op == "B" then                       -- b = request.body; b.read(); type(b)
-    match q.body with
-    | (.error e, q') => some (.error e, q')
-    | (.ok sk, q') =>
-      (q'.readCached none).map fun (d, q'') =>
-        (.ok s!"b:{hexBytes d}:{if sk.isTemp then "t" else "m"}", q'')
+    some (tok "b" (q.access (.bodyRead none)) fun q' =>
+      match q'.cache with | some (sk, _) => (if sk.isTemp then ":t" else ":m") | none => ":?")
   else if op.startsWith "P" then          -- request.body.read(k)
-    (op.drop 1).toNat?.bind fun k =>
-      match q.body with
-      | (.error e, q') => some (.error e, q')
-      | (.ok _, q') => (q'.readCached (some k)).map fun (d, q'') => (.ok s!"p:{hexBytes d}", q'')
+    (op.drop 1).toNat?.map fun k => tok "p" (q.access (.bodyRead (some k))) fun _ => ""
   else if op == "I" then                  -- environ['wsgi.input'].read()
-    match q.cache with
-    | some _ => (q.readCached none).map fun (d, q') => (.ok s!"i:{hexBytes d}", q')
-    | none =>
-      let p := q.input.read q.input.st.data.length
-      some (.ok s!"i:{hexBytes p.1}", { q with input := p.2 })
+    some (tok "i" (q.access .inputRead) fun _ => "")
   else if op == "S" then                  -- request._get_body_string()
-    match q.getBodyString with
-    | (.error e, q') => some (.error e, q')
-    | (.ok d, q') => some (.ok s!"s:{hexBytes d}", q')
+    some (tok "s" (q.access .bodyString) fun _ => "")
   else if op == "C" then                  -- request.content_length
     match contentLength q.clHeader with
     | .error e => some (.error e, q)
